@@ -163,3 +163,39 @@ contract("ipv8/community.py::Community.unload", "unload.keeps-the-prefix-anonymi
          stubs={"ipv8/overlay.py::Overlay.unload": {"event": "overlay_unload", "returns": EXPR("None"), "note": "own contract in C11"}},
          ensures=["ep.settings.get(P, False) == True", "ep.settings.get(b'other', False) == True", "len(calls('raw.send')) == 0"],
          note="unload does not turn an anonymised prefix back into a plain one")
+
+
+# the endpoint's per-prefix anonymity table is only ever changed through TunnelEndpoint.set_anonymity (one prefix at a time): no other
+# code replaces or edits it wholesale - an overlay that opted in keeps its registration whatever is loaded after it
+def anonymity_table_audit(ctx):
+    import ast
+    rows = []
+    n_files = 0
+    for rel in sorted(ctx.python_files("ipv8")):
+        if "/test/" in rel or rel.endswith("anonymization/endpoint.py"):
+            continue
+        n_files += 1
+        for st in ast.walk(ctx.module(rel).tree):
+            targets = []
+            if isinstance(st, ast.Assign):
+                targets = st.targets
+            elif isinstance(st, (ast.AugAssign, ast.AnnAssign)) and st.target is not None:
+                targets = [st.target]
+            elif isinstance(st, ast.Delete):
+                targets = st.targets
+            for t in targets:
+                base = t.value if isinstance(t, ast.Subscript) else t
+                if isinstance(base, ast.Attribute) and base.attr == "settings" and ast.unparse(base.value).endswith("endpoint"):
+                    rows.append((f"{rel}:{st.lineno}:writes-endpoint-settings", False,
+                                 f"{rel}:{st.lineno} `{ast.unparse(st)[:100]}` changes the endpoint's anonymity table directly"))
+            if isinstance(st, ast.Call) and isinstance(st.func, ast.Attribute) and st.func.attr in ("clear", "update", "pop", "setdefault") \
+                    and isinstance(st.func.value, ast.Attribute) and st.func.value.attr == "settings" \
+                    and ast.unparse(st.func.value.value).endswith("endpoint"):
+                rows.append((f"{rel}:{st.lineno}:mutates-endpoint-settings", False,
+                             f"{rel}:{st.lineno} `{ast.unparse(st)[:100]}` changes the endpoint's anonymity table directly"))
+    rows.append(("files-scanned", n_files > 50, f"{n_files} files scanned"))
+    return rows
+
+
+audit("anonymity-table-only-through-set_anonymity", anonymity_table_audit,
+      note="registrations of other overlays survive whatever is loaded later (set_anonymity touches one prefix: contract above)")
